@@ -470,10 +470,19 @@ module Xmlops = struct
       end
 
   (* pugixml: load_buffer(.., encoding_utf8) for memory; load(istream) auto-detects (BOM, or '<' patterns) *)
+  let px_name = function Pe_utf8 -> "utf8" | Pe_utf16_le -> "utf16le" | Pe_utf16_be -> "utf16be" | Pe_utf32_le -> "utf32le" | Pe_utf32_be -> "utf32be"
+
+  (* m.xdetect <hex>: the encoding px_detect finds and the text px_read hands to the parser *)
+  let xdetect hex : string =
+    let bytes = if hex = "-" then [] else parse_hexbytes hex in
+    px_name (px_detect bytes) ^ " " ^ (match px_read bytes with Some cps -> "TEXT " ^ cps_to_utf8_hex cps | None -> "NOTEXT")
+
   let load medium enc idx rootkey pol hex : string =
     let t = get_type idx in
     let bytes = if hex = "-" then [] else parse_hexbytes hex in
-    let enc' = if medium = "mem" then "utf8" else enc in
+    (* a stream: the encoding is what the extracted px_detect of coq/JxXmlDetect.v finds (the argument is ignored) *)
+    ignore enc;
+    let enc' = if medium = "mem" then "utf8" else px_name (px_detect bytes) in
     match decode enc' bytes with
     | None -> "DECODE-ERR"
     | Some (_, cps) -> fmt_outcome (load_xml_text xstrtod_oracle xstrtof_oracle (opts_of pol) (key_opt rootkey) t cps)
@@ -529,6 +538,7 @@ let run_case (line : string) : string =
   try
     match t.(0), (if n > 1 then t.(1) else "") with
     | "m.detect", _ when n = 2 -> detect_op t.(1)
+    | "m.xdetect", _ when n = 2 -> Xmlops.xdetect t.(1)
     | "m.val", ("json" | "xml") when n = 5 -> val_op t.(1) t.(2) t.(3) t.(4)
     | "m.chk", "json" when n = 8 -> json_chk t.(2) t.(3) t.(4) t.(6) (t.(7))
     | "m.chk", "json" when n = 9 -> json_chk t.(2) t.(3) t.(4) t.(6) (t.(7) ^ " " ^ t.(8))
